@@ -13,6 +13,7 @@ import (
 const (
 	annPackage = 0xbea97f1023792be0
 	annImport  = 0xe130b601260e44b5
+	annName    = 0xc2b96012172f8df1
 	markerWord = 0x1122334455667788
 )
 
@@ -99,6 +100,11 @@ func Request(m Model, pkgImport string) ([]byte, error) {
 		for i, v := range e.Values {
 			es.At(i).SetName(v)
 			es.At(i).SetCodeOrder(uint16(i))
+			if i < len(e.GoVals) && e.GoVals[i] != "" {
+				if err := nameAnnotation(es.At(i).NewAnnotations, e.GoVals[i]); err != nil {
+					return nil, err
+				}
+			}
 		}
 	}
 	// interfaces (no methods, no superclasses: only their capability type is of interest here)
@@ -137,6 +143,11 @@ func Request(m Model, pkgImport string) ([]byte, error) {
 		} else {
 			n.SetScopeId(m.FileID)
 		}
+		if s.Renamed {
+			if err := nameAnnotation(n.NewAnnotations, s.Name); err != nil {
+				return nil, err
+			}
+		}
 		n.SetStructNode()
 		sn := n.StructNode()
 		sn.SetDataWordCount(uint16(s.DataWords))
@@ -153,6 +164,11 @@ func Request(m Model, pkgImport string) ([]byte, error) {
 			sf := fs.At(fi)
 			sf.SetName(f.Name)
 			sf.SetCodeOrder(uint16(fi))
+			if f.GoName != "" {
+				if err := nameAnnotation(sf.NewAnnotations, f.GoName); err != nil {
+					return nil, err
+				}
+			}
 			if f.Disc >= 0 {
 				sf.SetDiscriminantValue(uint16(f.Disc))
 			} else {
@@ -197,6 +213,20 @@ func Request(m Model, pkgImport string) ([]byte, error) {
 		return nil, err
 	}
 	return buf.Bytes(), nil
+}
+
+// nameAnnotation writes a one-element annotation list holding $Go.name(name).
+func nameAnnotation(newList func(int32) (schema.Annotation_List, error), name string) error {
+	anns, err := newList(1)
+	if err != nil {
+		return err
+	}
+	anns.At(0).SetId(annName)
+	v, err := anns.At(0).NewValue()
+	if err != nil {
+		return err
+	}
+	return v.SetText(name)
 }
 
 func setType(m Model, t schema.Type, kind string, ref int, elem string, elemRef int) error {
@@ -399,6 +429,9 @@ func CheckFile(m Model) string {
 			layout := fmt.Sprintf("rt.Layout{Name: %q, DataWords: %d, Ptrs: %d, DiscOff: %d, DiscVal: %d, DiscCount: %d}", name, root.DataWords, root.Ptrs, discOff, f.Disc, s.DiscCount)
 			E := reach(i)
 			F := title(f.Name)
+			if f.GoName != "" {
+				F = title(f.GoName)
+			}
 			switch {
 			case f.Kind == "group":
 				if f.Disc >= 0 {
@@ -569,6 +602,9 @@ func CheckFile(m Model) string {
 	}
 	for _, e := range m.Enums {
 		for i, v := range e.Values {
+			if i < len(e.GoVals) && e.GoVals[i] != "" {
+				v = e.GoVals[i]
+			}
 			p("\tif uint16(%s_%s) != %d { rt.Fail(t, \"enum-value\", \"%s_%s = %%d, the schema says %d\", uint16(%s_%s)) }", e.Name, v, i, e.Name, v, i, e.Name, v)
 		}
 	}
